@@ -191,7 +191,10 @@ impl Report {
         let _ = std::io::stdout().flush();
         // a library thread was found stuck (it neither answers, exits nor panics): every further case
         // that needs a daemon would wait for its time-out, so the run ends with this verdict
-        if crate::daemonh::STUCK.load(std::sync::atomic::Ordering::SeqCst) {
+        // the same holds for a violation that itself says that a library thread never finished (it may
+        // be spinning: every leaked spinner takes a core, and each further case waits for its time-out)
+        let thread_lost = ["never-returns", "never-exits", "never-completes", "caller-stuck"].iter().any(|w| signature.contains(w));
+        if thread_lost || crate::daemonh::STUCK.load(std::sync::atomic::Ordering::SeqCst) {
             self.caps.push("stopped: a daemon or worker thread is stuck".into());
             self.exhaustive = false;
             let code = self.finish_mut();
